@@ -1,0 +1,11 @@
+//go:build verif
+
+package executor
+
+import "github.com/alpacahq/marketstore/v4/executor/wal"
+
+// VerifSerializeTG exposes the unexported serializeTG to the verification harness
+// (add-only hook, compiled only with `-tags verif`).
+func VerifSerializeTG(tgID int64, commands []*wal.WriteCommand) ([]byte, map[string][]wal.OffsetIndexBuffer) {
+	return serializeTG(tgID, commands)
+}
